@@ -1261,6 +1261,11 @@ func (fv *FuncVerifier) doReturn(st *State, r *ssa.Return) {
 		}
 	}
 	st.pc = basePC
+	if isPkgInit(fv.fn) {
+		for k, gi := range ginvsFor(fv.db, fv.fn.Pkg.Pkg.Path()) {
+			fv.addOb(st, "post", fmt.Sprintf("ginv#%d@ret%d", k, idx), fv.evalBool(env, gi.E), "package invariant established by the initialiser: "+gi.Src, r.Pos())
+		}
+	}
 	fv.checkFrame(st, idx, r.Pos())
 	fv.checkLocksAtExit(st, idx, r.Pos())
 	// vacuity canary: this return is reachable under the precondition
